@@ -1,4 +1,6 @@
 mod bdd_rec;
+mod ffi_rec;
+mod ser_rec;
 mod pure_rec;
 mod vec_replay;
 mod sat_rec;
@@ -20,6 +22,8 @@ fn main() {
         (Some("record"), Some("cnf")) => pure_rec::record_cnf(&args),
         (Some("record"), Some("orders")) => pure_rec::record_orders(&args),
         (Some("record"), Some("semiring")) => pure_rec::record_semiring(&args),
+        (Some("record"), Some("ser")) => ser_rec::record(&args),
+        (Some("record"), Some("ffi")) => ffi_rec::record(&args),
         (Some("record"), Some("table")) => tables::record_table(&args),
         (Some("replay"), Some("bddvec")) => vec_replay::replay_bddvec(&args),
         (Some("replay"), Some("sddvec")) => vec_replay::replay_sddvec(&args),
